@@ -4,7 +4,7 @@ import ast
 
 from .. import AnalysisError, tables
 from ..pat import find_expr, find_stmt, match_expr, match_stmt
-from ..canon import canon
+from ..canon import canon, canon_node
 from ..pm import src
 from ..q import FA, call_name, cfg_of, guard_facts, is_self_attr, walk_no_nested
 from ..resolve import resolver
@@ -361,8 +361,8 @@ def run(ctx):
     if ok:
         rf_ = {src(lf[0].target.elts[0]): "p", src(lf[0].target.elts[1]): "pp"} if isinstance(lf[0].target, ast.Tuple) else {}
         ri_ = {src(li[0].target.elts[0]): "p", src(li[0].target.elts[1]): "pp"} if isinstance(li[0].target, ast.Tuple) else {}
-        steps_f = [canon(s.test, rename=rf_) for s in lf[0].body if isinstance(s, ast.If)]
-        steps_i = [canon(s.test, rename=ri_) for s in li[0].body if isinstance(s, ast.If)]
+        steps_f = [ast.unparse(canon_node(s, rename=rf_).test) for s in lf[0].body if isinstance(s, ast.If)]
+        steps_i = [ast.unparse(canon_node(s, rename=ri_).test) for s in li[0].body if isinstance(s, ast.If)]
         ctx.ob("R-SIB", "C07.5", inv, "RescaleToBounds: the inverse undoes the steps of the forward map in reverse order under the same guards (post-rescaling, inversion-or-bounds, pre-rescaling)", steps_f == ["self.has_pre_rescaling", "self.boundary_inversion and p in self.boundary_inversion", "self.has_post_rescaling"] and steps_i == list(reversed(steps_f)), f"forward {steps_f}; inverse {steps_i}")
         calls_f = [[c.func.attr for c in walk_no_nested(s) if isinstance(c, ast.Call) and isinstance(c.func, ast.Attribute) and isinstance(c.func.value, ast.Name) and c.func.value.id == "self"] for s in lf[0].body if isinstance(s, ast.If)]
         calls_i = [[c.func.attr for c in walk_no_nested(s) if isinstance(c, ast.Call) and isinstance(c.func, ast.Attribute) and isinstance(c.func.value, ast.Name) and c.func.value.id == "self"] for s in li[0].body if isinstance(s, ast.If)]
